@@ -159,7 +159,11 @@ impl MultiProgress {
         };
 
         state.draw_target = ProgressDrawTarget::hidden();
-        self.state.write().unwrap().remove_idx(idx);
+        let mut multi = self.state.write().unwrap();
+        multi.remove_idx(idx);
+        // Take the bar's lines off the screen right away: what is on the terminal has to match
+        // the remaining bars before one of them is dropped and reaped in place
+        let _ = multi.draw(true, None, Instant::now());
     }
 
     fn internalize(&self, location: InsertLocation, pb: ProgressBar) -> ProgressBar {
